@@ -185,6 +185,15 @@ def check(ctx):
            "every per-column cell list is padded to one width" if ok else
            "a per-column cell list is not passed through util.upad: lines of a block differ in width",
            clause="within a block all lines have the same display width")
+    seps = [n for n in ast.walk(ts.node) if isinstance(n, ast.BinOp) and isinstance(n.op, ast.Mult)
+            and any(isinstance(x, ast.Constant) and isinstance(x.value, str) and len(x.value) == 1 for x in (n.left, n.right))]
+    for sp in seps:
+        other = sp.right if isinstance(sp.left, ast.Constant) else sp.left
+        ok = isinstance(other, ast.Call) and repo.dotted(ts, other.func) == "dataiter.util.ulen"
+        ctx.ob("SIB-pad", ts, norm(sp), sp, ok,
+               "the rule under the header is as wide as the DISPLAY width of the padded cells" if ok else
+               f"the rule's length is {norm(other)}, not util.ulen(...): for names with double-width characters the rule is "
+               f"narrower than the padded cells", clause="within a block all lines have the same display width")
     rn_ok = False
     for f, c in calls_in(ts):
         if c in upads:
